@@ -84,6 +84,8 @@ impl Shiftable for Token {
     fn shift(self, offset: usize) -> Self {
         Self {
             range: self.range.shift(offset),
+            // the lexical errors carry text ranges as well and must move with the token
+            errors: self.errors.shift(offset),
             ..self
         }
     }
